@@ -532,8 +532,10 @@ def history_stage(ck, good):
                     return i, f"history/{cfg}/valid-after-{'malformed' if last_bad != 'start' else 'valid-only'}/{why[0]}", \
                         f"{cfg}: a valid serialized message {why[1]} after a {last_bad} octet string was fed to a serializer object before"
             else:
-                if o["k"] == "exc" and o["cls"] != "ProtocolError":
-                    return i, f"history/{cfg}/{kind}/{o['cls']}", f"{cfg}: a {kind} octet string raises {o['cls']}"
+                # C03 says nothing about WHICH exception a corrupted payload raises (exception hygiene is C08's clause
+                # and is reported there, e.g. the known enc_* constructor asserts): any exception = rejected.  What is
+                # judged here: the valid payloads around it, and that every payload is answered the same way wherever
+                # it occurs (consistency check below).
                 last_bad = kind
         return None
 
